@@ -33,6 +33,85 @@ func copyItem(item map[string]*types.Item) map[string]*types.Item {
 	return copy
 }
 
+// deepCopyItem copies the item and every value in it, the copy shares no memory with the original
+func deepCopyItem(item map[string]*types.Item) map[string]*types.Item {
+	if item == nil {
+		return nil
+	}
+
+	copy := make(map[string]*types.Item, len(item))
+	for key, val := range item {
+		copy[key] = deepCopyValue(val)
+	}
+
+	return copy
+}
+
+func deepCopyValue(val *types.Item) *types.Item {
+	if val == nil {
+		return nil
+	}
+
+	c := *val
+	c.M = deepCopyItem(val.M)
+
+	if val.B != nil {
+		c.B = append([]byte{}, val.B...)
+	}
+
+	if val.L != nil {
+		c.L = make([]*types.Item, len(val.L))
+		for i, elem := range val.L {
+			c.L[i] = deepCopyValue(elem)
+		}
+	}
+
+	if val.BS != nil {
+		c.BS = make([][]byte, len(val.BS))
+		for i, b := range val.BS {
+			c.BS[i] = append([]byte{}, b...)
+		}
+	}
+
+	c.N, c.S, c.BOOL, c.NULL = copyString(val.N), copyString(val.S), copyBool(val.BOOL), copyBool(val.NULL)
+	c.NS, c.SS = copyStrings(val.NS), copyStrings(val.SS)
+
+	return &c
+}
+
+func copyString(s *string) *string {
+	if s == nil {
+		return nil
+	}
+
+	c := *s
+
+	return &c
+}
+
+func copyBool(b *bool) *bool {
+	if b == nil {
+		return nil
+	}
+
+	c := *b
+
+	return &c
+}
+
+func copyStrings(l []*string) []*string {
+	if l == nil {
+		return nil
+	}
+
+	c := make([]*string, len(l))
+	for i, s := range l {
+		c[i] = copyString(s)
+	}
+
+	return c
+}
+
 func mapSliceType(t reflect.Type) string {
 	e := t.Elem()
 
